@@ -30,6 +30,7 @@ import (
 	"sort"
 	"strings"
 	"time"
+	"unicode/utf8"
 
 	"github.com/apache/arrow-go/v18/arrow"
 	"github.com/apache/arrow-go/v18/arrow/array"
@@ -44,7 +45,8 @@ import (
 )
 
 type methodSpec struct {
-	Name   string `json:"name"`
+	Name   string `json:"-"`
+	NameB  []byte `json:"name"` // the name as bytes: JSON strings cannot carry invalid UTF-8
 	Kind   int    `json:"kind"`
 	Param  int    `json:"param"`
 	Result int    `json:"result"`
@@ -329,6 +331,9 @@ func childDescribe(in []byte) []byte {
 		out, _ := json.Marshal(co)
 		return out
 	}
+	for mi := range ci.Surface.Methods {
+		ci.Surface.Methods[mi].Name = string(ci.Surface.Methods[mi].NameB)
+	}
 	s, err := build(&ci.Surface, ci.Order)
 	if err != nil {
 		co.ErrorMsg = err.Error()
@@ -368,7 +373,16 @@ var nameAtoms = []string{"a", "A", "b", "B", "ab", "a_b", "a.b", "a-b", "a b", "
 	"_", "__x__", "é", "e", "é", "名前", "名", "ñ", "echo", "echo_string", "Echo", "stream", "unary", "init", "exchange",
 	"method/with/slash", "with|pipe", "x\ty", "0", "00", "1", "10", "9", "~", "!", "\U0001F600", "𝒳", " ", "ÿ", "Ā"}
 
+// oddNames: Server registration has no name validator, so every string is a registered
+// name: empty, the hash framing's own separator bytes, NUL, invalid UTF-8, the reserved
+// introspection name, very long.
+var oddNames = []string{"", "\x1e", "\x1f", "a\x1eb", "a\x1fb", "\x1fa\x1eunary\x1e1", "|", "a|b", "\x00", "a\x00b", "\xff", "\xff\xfe", "a\xc3", "\xed\xa0\x80",
+	"__describe__", "__transport_options__", "a/init", "a/exchange", strings.Repeat("n", 3000), "\n", "a\r\nb", "\u2028", "\ufeffa", "\U0010ffff"}
+
 func genName(rng *rand.Rand) string {
+	if rng.IntN(12) == 0 {
+		return oddNames[rng.IntN(len(oddNames))]
+	}
 	switch rng.IntN(5) {
 	case 0:
 		return nameAtoms[rng.IntN(len(nameAtoms))]
@@ -383,7 +397,41 @@ func genName(rng *rand.Rand) string {
 	}
 }
 
+// oddSchemas: shapes a seeded column generator with distinct names never builds, all accepted
+// by arrow.NewSchema and by the registration functions.
+func oddSchemas() []*arrow.Schema {
+	i64, str := arrow.PrimitiveTypes.Int64, arrow.BinaryTypes.String
+	md := arrow.NewMetadata([]string{"", "k", "k"}, []string{"", "v1", "v2"})
+	return []*arrow.Schema{
+		arrow.NewSchema(nil, nil),
+		arrow.NewSchema([]arrow.Field{{Name: "", Type: i64}}, nil),
+		arrow.NewSchema([]arrow.Field{{Name: "dup", Type: i64}, {Name: "dup", Type: str, Nullable: true}}, nil),
+		arrow.NewSchema([]arrow.Field{{Name: "n", Type: arrow.Null, Nullable: true}}, nil),
+		arrow.NewSchema([]arrow.Field{{Name: "ll", Type: arrow.LargeListOf(i64)}, {Name: "fl", Type: arrow.FixedSizeListOf(3, str)}}, nil),
+		arrow.NewSchema([]arrow.Field{{Name: "deep", Type: arrow.ListOf(arrow.StructOf(arrow.Field{Name: "m", Type: arrow.MapOf(str, arrow.ListOf(i64)), Nullable: true}))}}, nil),
+		arrow.NewSchema([]arrow.Field{{Name: "t", Type: &arrow.TimestampType{Unit: arrow.Nanosecond, TimeZone: "Europe/Paris"}}, {Name: "d", Type: &arrow.Decimal128Type{Precision: 38, Scale: -2}},
+			{Name: "d256", Type: &arrow.Decimal256Type{Precision: 50, Scale: 10}}, {Name: "f16", Type: arrow.FixedWidthTypes.Float16}, {Name: "d64", Type: arrow.FixedWidthTypes.Date64},
+			{Name: "iv", Type: arrow.FixedWidthTypes.MonthDayNanoInterval}, {Name: "t32", Type: arrow.FixedWidthTypes.Time32ms}}, nil),
+		arrow.NewSchema([]arrow.Field{{Name: "x\x00y", Type: i64, Metadata: md}}, &md),
+		arrow.NewSchema([]arrow.Field{{Name: "dict", Type: &arrow.DictionaryType{IndexType: arrow.PrimitiveTypes.Uint8, ValueType: arrow.ListOf(str), Ordered: true}}}, nil),
+		arrow.NewSchema([]arrow.Field{{Name: "ree", Type: arrow.RunEndEncodedOf(arrow.PrimitiveTypes.Int32, str)}, {Name: "sv", Type: arrow.BinaryTypes.StringView}}, nil),
+	}
+}
+
+var oddSchemaList = oddSchemas()
+
+var oddSchemaBytes = func() [][]byte {
+	var out [][]byte
+	for _, sc := range oddSchemaList {
+		out = append(out, schemaBytes(sc))
+	}
+	return out
+}()
+
 func genSchema(rng *rand.Rand) *arrow.Schema {
+	if rng.IntN(15) == 0 {
+		return oddSchemaList[rng.IntN(len(oddSchemaList))]
+	}
 	s := gen.Schema(rng, gen.SchemaOpt{MaxCols: 5, Nested: true, Dict: true})
 	if rng.IntN(4) == 0 && s.NumFields() > 0 {
 		// field-level and schema-level metadata must survive too
@@ -406,6 +454,9 @@ func genSurface(rng *rand.Rand) surface {
 	sf.ServerID = serverIDs[rng.IntN(len(serverIDs))]
 	sf.ProtocolVersion = protoVersions[rng.IntN(len(protoVersions))]
 	for i := range sf.Decl {
+		if rng.IntN(10) == 0 {
+			continue // declarer answers nil: documented to fall back to the tag-derived schema (empty for these types)
+		}
 		sf.Decl[i] = schemaBytes(genSchema(rng))
 	}
 	n := 1 + rng.IntN(40)
@@ -459,7 +510,11 @@ func expectation(sf *surface, m *methodSpec) expectRow {
 	if m.Param < numStaticParams {
 		e.params = canonSchema(expectedParams[m.Param])
 	} else {
-		e.params = canonSchema(must(schemaFromBytes(sf.Decl[m.Param-numStaticParams])))
+		if b := sf.Decl[m.Param-numStaticParams]; len(b) > 0 {
+			e.params = canonSchema(must(schemaFromBytes(b)))
+		} else {
+			e.params = canonSchema(arrow.NewSchema(nil, nil))
+		}
 	}
 	empty := canonSchema(arrow.NewSchema(nil, nil))
 	switch m.Kind {
@@ -507,7 +562,8 @@ func main() {
 	r.Require("kind:unary", "kind:unary-void", "kind:producer", "kind:producer-header", "kind:exchange", "kind:exchange-header", "kind:dynamic-header",
 		"param:static", "param:declarer", "orders-differ", "child:gomaxprocs=1", "child:gomaxprocs=2", "child:gomaxprocs=16",
 		"http-describe", "service-name:set", "service-name:default", "server-id:set", "protocol-version:set", "conformance-service",
-		"names:non-ascii", "names:case-mix",
+		"names:non-ascii", "names:case-mix", "names:empty", "names:invalid-utf8", "names:hash-separator-bytes", "names:reserved-looking",
+		"param:declarer-nil", "schema:odd",
 		"same-surface-different-identity:http-after-http", "same-surface-different-identity:renamed-server")
 
 	nSurf := r.N(1500, 24000)
@@ -541,7 +597,12 @@ func checkChunk(r *mon.Run, rng *rand.Rand, surfaces []surface, procs []int, bas
 		for si := range surfaces {
 			order := rng.Perm(len(surfaces[si].Methods))
 			childOrders[pi][si] = order
-			b, err := json.Marshal(childIn{Surface: surfaces[si], Order: order})
+			cs := surfaces[si]
+			cs.Methods = append([]methodSpec(nil), cs.Methods...)
+			for mi := range cs.Methods {
+				cs.Methods[mi].NameB = []byte(cs.Methods[mi].Name)
+			}
+			b, err := json.Marshal(childIn{Surface: cs, Order: order})
 			if err != nil {
 				r.Fatal("marshal child input: %v", err)
 			}
@@ -708,6 +769,26 @@ func checkChunk(r *mon.Run, rng *rand.Rand, surfaces []surface, procs []int, bas
 				if c > 127 {
 					r.Class("names:non-ascii")
 					break
+				}
+			}
+			switch {
+			case m.Name == "":
+				r.Class("names:empty")
+			case !utf8.ValidString(m.Name):
+				r.Class("names:invalid-utf8")
+			case strings.ContainsAny(m.Name, "\x1e\x1f|"):
+				r.Class("names:hash-separator-bytes")
+			case strings.HasPrefix(m.Name, "__"):
+				r.Class("names:reserved-looking")
+			}
+			if m.Param >= numStaticParams && len(sf.Decl[m.Param-numStaticParams]) == 0 {
+				r.Class("param:declarer-nil")
+			}
+			for _, b := range [][]byte{m.Out, m.In, m.Hdr} {
+				for _, o := range oddSchemaBytes {
+					if len(b) > 0 && bytes.Equal(b, o) {
+						r.Class("schema:odd")
+					}
 				}
 			}
 		}
